@@ -66,6 +66,11 @@ func newWSHandlerWait(host string, dial dialFunc, conn gkm.Gauge, wait time.Dura
 		}
 		defer out.Close()
 
+		// Request.Write adds a User-Agent of its own if there is none
+		if _, ok := r.Header["User-Agent"]; !ok {
+			r.Header.Set("User-Agent", "")
+		}
+
 		err = r.Write(out)
 		if err != nil {
 			log.Printf("[ERROR] Error copying request for %s. %s", r.URL, err)
